@@ -1,3 +1,5 @@
+//go:build verif_c04
+
 package main
 
 // C04 — all read paths agree, and reading never changes the workbook.
